@@ -8,6 +8,7 @@ import (
 	"net/http"
 	"net/http/httptest"
 	"net/url"
+	"os"
 	"path"
 	"runtime"
 	"sort"
@@ -15,6 +16,7 @@ import (
 	"sync/atomic"
 	"testing"
 	"time"
+	"verif/harness/pgfake"
 
 	"pgregory.net/rapid"
 
@@ -80,7 +82,14 @@ var c18Template = func() func() *dbNode {
 	}
 }()
 
-func newAPIServer(writeEnabled bool) *apiServer {
+func newAPIServer(writeEnabled bool, swaggerUI ...string) *apiServer {
+	// setupRouter reads the SWAGGER_UI environment variable: with it the router has further mounts
+	if len(swaggerUI) > 0 && swaggerUI[0] != "" {
+		os.Setenv("SWAGGER_UI", swaggerUI[0])
+		defer os.Unsetenv("SWAGGER_UI")
+	} else {
+		os.Unsetenv("SWAGGER_UI")
+	}
 	n := c18Template()
 	cfg := mkKeyperConfig(0, simInstanceID, 4)
 	cfg.HTTPEnabled = true
@@ -312,16 +321,35 @@ func TestC18_ReadOnlyMode(t *testing.T) {
 		}
 		a.Close()
 	}
-	a := newAPIServer(false)
-	defer a.Close()
+	plain := newAPIServer(false)
+	defer plain.Close()
+	withUI := newAPIServer(false, t.TempDir())
+	defer withUI.Close()
 	runRapid(t, N(4000, 2500000), func(rt *rapid.T) {
 		raw, desc, _, method := genRequest(rt, ops)
+		a := plain
+		if rapid.IntRange(0, 3).Draw(rt, "swaggerUI") == 0 {
+			a = withUI
+			desc += " [router built with SWAGGER_UI set]"
+		}
+		dbFault := rapid.IntRange(0, 7).Draw(rt, "dbFault") == 0
+		if dbFault {
+			// the database connection breaks at the next statement (if the request issues one)
+			a.db.Srv.SetFault(a.db.Srv.RoundTrips()+1, pgfake.FaultDropBefore)
+			desc += " [database connection drops at the next statement]"
+		}
 		st1, _, ok := a.do(raw)
+		if dbFault {
+			a.db.Srv.SetFault(0, pgfake.FaultNone)
+		}
 		if !ok {
 			rec.Label("unparseable-request")
 			return
 		}
 		st2, _, _ := a.do(raw)
+		if dbFault {
+			st2 = st1 // the two requests did not meet the same database
+		}
 		waitCounters()
 		if tr, sh := atomic.LoadInt64(a.triggers), atomic.LoadInt64(a.shutdowns); tr != 0 || sh != 0 {
 			fatalf(rt, "write-op-reached-in-read-only-mode", "a state-changing operation ran with write operations disabled (triggers=%d shutdowns=%d)\nrequest: %s", tr, sh, desc)
@@ -343,13 +371,23 @@ func TestC18_ReadOnlyMode(t *testing.T) {
 				}
 			}
 		}
-		rec.Case(desc, nt, fmt.Sprintf("status:%d", st1))
+		labels := []string{fmt.Sprintf("status:%d", st1)}
+		if a == withUI {
+			labels = append(labels, "router-with-swagger-ui")
+		}
+		if dbFault {
+			labels = append(labels, "database-fault-armed")
+		}
+		rec.Case(desc, nt, labels...)
 	})
 	time.Sleep(20 * time.Millisecond)
-	if tr, sh := atomic.LoadInt64(a.triggers), atomic.LoadInt64(a.shutdowns); tr != 0 || sh != 0 {
-		rec.Violation("write-op-reached-in-read-only-mode", fmt.Sprintf("after all requests: triggers=%d shutdowns=%d", tr, sh), "")
-		t.Errorf("VERIF-FAIL signature=write-op-reached-in-read-only-mode :: triggers=%d shutdowns=%d at the end of the run", tr, sh)
+	for _, a := range []*apiServer{plain, withUI} {
+		if tr, sh := atomic.LoadInt64(a.triggers), atomic.LoadInt64(a.shutdowns); tr != 0 || sh != 0 {
+			rec.Violation("write-op-reached-in-read-only-mode", fmt.Sprintf("after all requests: triggers=%d shutdowns=%d", tr, sh), "")
+			t.Errorf("VERIF-FAIL signature=write-op-reached-in-read-only-mode :: triggers=%d shutdowns=%d at the end of the run", tr, sh)
+		}
 	}
+	a := plain
 	if u := a.db.Srv.Unsupported(); len(u) > 0 {
 		rec.Inconclusive(fmt.Sprintf("pgfake unsupported: %v", u))
 		t.Errorf("inconclusive: %v", u)
